@@ -525,7 +525,9 @@ fn rt_seqs(t: &mut Tape<'_>, o: &mut Obs) -> R {
 fn rt_maps(t: &mut Tape<'_>, o: &mut Obs) -> R {
     dispatch!(t, roundtrip(t, o, false);
         BTreeMap<u32, u8>, BTreeMap<String, Vec<u16>>, MapDeep, BTreeSet<u64>, BTreeSet<String>, BTreeSet<(u8, bool)>,
-        BTreeMap<(i8, u8), Option<String>>, Vec<BTreeSet<u8>>, BTreeMap<u8, ()>, BTreeSet<Vec<u8>>)
+        BTreeMap<(i8, u8), Option<String>>, Vec<BTreeSet<u8>>, BTreeMap<u8, ()>, BTreeSet<Vec<u8>>,
+        BTreeMap<Md, u8>, BTreeMap<(Md, u8), Md>, BTreeSet<Md>, BTreeMap<u8, Vec<Md>>, Vec<Md>, VecDeque<Md>, LinkedList<Md>,
+        [Md; 3], Option<Md>, (Md, bool, Md))
 }
 
 fn rt_pointers(t: &mut Tape<'_>, o: &mut Obs) -> R {
